@@ -52,6 +52,7 @@ Record R (v13 : bool) (k : N) (p : option N) (s : state) : Prop := {
   r_bail : bailed_out s = false;
   r_st : st s <> Yaml;
   r_ver : (13 <=? version s) = v13;
+  r_seen : N.of_nat (length (seen_tests s)) = k /\ (forall n, In n (seen_tests s) -> 1 <= n <= k);
   r_plan : match p with
            | None => cur_plan s = None
            | Some n => exists pl, cur_plan s = Some pl /\ p_num pl = n
@@ -59,7 +60,7 @@ Record R (v13 : bool) (k : N) (p : option N) (s : state) : Prop := {
 (* no late plan so far *)
 Definition NoLate (s : state) : Prop := forall pl, cur_plan s = Some pl -> p_late pl = false.
 Lemma NoLate_ctr s s1 : ctr s1 = ctr s -> NoLate s -> NoLate s1.
-Proof. unfold ctr, NoLate. intros C H pl Hp. inversion C as [[C1 C2 C3 C4 C5 C6]]. apply H. congruence. Qed.
+Proof. unfold ctr, NoLate. intros C H pl Hp. inversion C as [[C1 C2 C3 C4 C5 C6 C7]]. apply H. congruence. Qed.
 
 Lemma py_int_fwd ds : (length ds <= 4300)%nat -> py_int ds = Ok (digits_val ds).
 Proof.
@@ -89,8 +90,8 @@ Qed.
 
 Lemma R_ctr v13 k p s s1 : ctr s1 = ctr s -> version s1 = version s -> st s1 <> Yaml -> R v13 k p s -> R v13 k p s1.
 Proof.
-  unfold ctr. intros C V S [A B C' D E F G]. inversion C as [[C1 C2 C3 C4 C5 C6]].
-  split; rewrite ?C1, ?C2, ?C3, ?C4, ?C5, ?C6, ?V; auto.
+  unfold ctr. intros C V S [A B C' D E F SN G]. inversion C as [[C1 C2 C3 C4 C5 C6 C7]].
+  split; rewrite ?C1, ?C2, ?C3, ?C4, ?C5, ?C6, ?C7, ?V; auto.
 Qed.
 
 Lemma silent_step v13 k p s l : silent l -> R v13 k p s ->
@@ -124,7 +125,7 @@ Proof.
   assert (R1 : R v13 k p s1) by (apply (R_ctr _ _ _ s); auto; congruence).
   assert (NL1 : NoLate s1) by (apply (NoLate_ctr s); assumption).
   assert (CP : cur_plan s1 = cur_plan s) by (unfold ctr in C; inversion C; reflexivity).
-  destruct R1 as [A B C' D E F G].
+  destruct R1 as [A B C' D E F SN G].
   apply line_class_Some in Hc. destruct Hc as [Hc1 Hc2].
   unfold main_line. rewrite Hc1, Hc2.
   assert (Hpre : (match cur_plan s1 with
@@ -135,13 +136,18 @@ Proof.
   assert (Hnum : (match num with None => Ok (last_test s1 + 1) | Some ds => py_int ds end) = Ok (k + 1)).
   { destruct num as [ds|]; [destruct Hn as [Hn1 Hn2]; rewrite (py_int_fwd _ Hn2), Hn1; reflexivity|rewrite B; reflexivity]. }
   rewrite Hnum. cbn [bind]. rewrite (parse_test_spec _ _ _ _ V).
-  assert (Hex : (match cur_plan (set_counts s1 (num_tests s1 + 1) (k + 1) (N.max (highest_test s1) (k + 1))) with
+  assert (Hex : (match cur_plan (set_counts s1 (num_tests s1 + 1) (k + 1) (N.max (highest_test s1) (k + 1)) (add_seen (k + 1) (seen_tests s1))) with
                  | Some p0 => if p_num p0 <? k + 1 then [EError KExceeds] else []
                  | None => [] end) = []).
   { simpl cur_plan. destruct p as [n|]; [destruct G as [pl [G1 G2]]; rewrite G1, G2|rewrite G; reflexivity].
     replace (n <? k + 1) with false; [reflexivity|]. symmetry. apply N.ltb_ge. exact Hp. }
   rewrite Hex. eexists _, _. split; [reflexivity|]. split; [reflexivity|]. split; [|split; [reflexivity|exact CP]].
+  destruct SN as [SN1 SN2].
+  assert (M : memb (k + 1) (seen_tests s1) = false).
+  { destruct (memb (k + 1) (seen_tests s1)) eqn:M; [|reflexivity]. apply memb_In in M. apply SN2 in M. lia. }
   split; simpl; auto; try lia; try discriminate.
+  unfold add_seen. rewrite M. split; [simpl length; lia|].
+  intros n0 [<-|Hn0]; [lia|apply SN2 in Hn0; lia].
 Qed.
 
 Lemma plan_step v13 k s l ds dir :
@@ -154,7 +160,7 @@ Proof.
   intros Hc Hy Hl Hd HR.
   destruct (parse_line_main s l (r_st _ _ _ _ HR) Hy) as [s1 [C [Ve [S [_ ->]]]]].
   assert (R1 : R v13 k None s1) by (apply (R_ctr _ _ _ s); auto; congruence).
-  destruct R1 as [A B C' D E F G]. simpl in G.
+  destruct R1 as [A B C' D E F SN G]. simpl in G.
   apply line_class_Some in Hc. destruct Hc as [Hc1 Hc2].
   unfold main_line. rewrite Hc1, Hc2, G, (py_int_fwd _ Hl). cbn [bind].
   assert (Hdir : exists sk, (match dir with
@@ -169,16 +175,20 @@ Proof.
   destruct Hdir as [sk ->].
   eexists _, _, (mkplan (digits_val ds) (0 <? num_tests s1) sk (option_map snd dir)).
   split; [reflexivity|]. split; [reflexivity|].
-  unfold ctr in *. inversion C as [[C1 C2 C3 C4 C5 C6]]. simpl.
+  unfold ctr in *. inversion C as [[C1 C2 C3 C4 C5 C6 C7]]. simpl.
   split; [congruence|]. split; [exact Ve|]. split; [rewrite S; discriminate|]. split; [reflexivity|].
   rewrite A. reflexivity.
 Qed.
 
 Lemma eof_clean v13 k p s : R v13 k p s -> match p with Some n => n = k | None => True end -> eof s = Ok [].
 Proof.
-  intros [A B C D E F G] Hp. unfold eof. rewrite D.
+  intros [A B C D E F SN G] Hp. unfold eof. rewrite D.
   assert (Y : match st s with Yaml => [EError KYaml] | _ => [] end = []) by (destruct (st s); congruence).
-  rewrite Y. rewrite A, C, N.eqb_refl. simpl.
+  rewrite Y. destruct SN as [SN1 SN2].
+  assert (NB : numbering_bad s = false).
+  { unfold numbering_bad. rewrite A, C, SN1, N.eqb_refl. simpl.
+    destruct (memb 0 (seen_tests s)) eqn:M; [|reflexivity]. apply memb_In in M. apply SN2 in M. lia. }
+  rewrite NB, A.
   destruct p as [n|]; [destruct G as [pl [G1 G2]]; rewrite G1, G2, Hp, N.eqb_refl; reflexivity|rewrite G; reflexivity].
 Qed.
 
@@ -225,17 +235,17 @@ Proof.
     rewrite (run_block_then _ _ _ _ _ _ H2 H3). cbn [bind].
     split; [reflexivity|]. split; [apply clean_app; assumption|exact E3].
   - destruct (plan_step _ _ _ _ _ _ Hc Hy Hl Hd HR) as [s1 [e1 [pl [H1 [C1 [Ct [Ve [S1 [P1 P2]]]]]]]]].
-    unfold ctr in Ct. simpl in Ct. inversion Ct as [[X1 X2 X3 X4 X5 X6]].
+    unfold ctr in Ct. simpl in Ct. inversion Ct as [[X1 X2 X3 X4 X5 X6 X7]].
     assert (R1 : R v13 0 (Some (digits_val ds)) s1).
-    { destruct HR as [A B C D E F G]. split; try congruence. exists pl. auto. }
+    { destruct HR as [A B C D E F SN G]. split; try congruence; try (rewrite X7; exact SN). exists pl. auto. }
     assert (NL1 : NoLate s1) by (intros q Hq; rewrite X3 in Hq; inversion Hq; subst q; rewrite P2; reflexivity).
     destruct (IH s1 R1 NL1) as [s2 [e2 [H2 [C2 E2]]]].
     exists s2, (e1 ++ e2). simpl. rewrite H1. cbn [bind]. rewrite H2. cbn [bind].
     split; [reflexivity|]. split; [apply clean_app; assumption|exact E2].
   - destruct (plan_step _ _ _ _ _ _ Hc Hy Hl Hd HR) as [s1 [e1 [pl [H1 [C1 [Ct [Ve [S1 [P1 P2]]]]]]]]].
-    unfold ctr in Ct. simpl in Ct. inversion Ct as [[X1 X2 X3 X4 X5 X6]].
+    unfold ctr in Ct. simpl in Ct. inversion Ct as [[X1 X2 X3 X4 X5 X6 X7]].
     assert (R1 : R v13 k (Some k) s1).
-    { destruct HR as [A B C D E F G]. split; try congruence. exists pl. split; congruence. }
+    { destruct HR as [A B C D E F SN G]. split; try congruence; try (rewrite X7; exact SN). exists pl. split; congruence. }
     destruct (silent_run _ _ _ _ Hs s1 R1) as [s2 [H2 R2]].
     exists s2, (e1 ++ []). simpl. rewrite H1. cbn [bind]. rewrite H2. cbn [bind].
     split; [reflexivity|]. split; [apply clean_app; [assumption|reflexivity]|].
@@ -248,7 +258,7 @@ Theorem well_formed_clean lines :
   wf false 0 None lines -> exists evs, parse lines = Ok evs /\ clean evs.
 Proof.
   intro W. destruct (wf_run _ _ _ _ W init) as [s [e [H [C E]]]].
-  - split; simpl; auto. discriminate.
+  - split; simpl; auto; try discriminate. split; [reflexivity|intros n []].
   - intros pl Hpl. discriminate.
   - exists (e ++ []). unfold parse. rewrite H. cbn [bind]. rewrite E. cbn [bind].
     split; [reflexivity|]. apply clean_app; [exact C|reflexivity].
@@ -267,9 +277,10 @@ Proof.
   simpl negb in E1. cbv iota in E1. rewrite (py_int_fwd _ Hl) in E1. cbn [bind] in E1.
   replace (digits_val ds <? 13) with false in E1 by (symmetry; apply N.ltb_ge; exact Hv).
   cbn [bind app] in E1.
-  unfold ctr in C. simpl in C. inversion C as [[X1 X2 X3 X4 X5 X6]].
+  unfold ctr in C. simpl in C. inversion C as [[X1 X2 X3 X4 X5 X6 X7]].
   destruct (wf_run _ _ _ _ W (set_version s1 (digits_val ds))) as [s2 [e [H [Cl E]]]].
-  - split; simpl; auto; try congruence. apply N.leb_le. exact Hv.
+  - split; simpl; auto; try congruence; [apply N.leb_le; exact Hv|].
+    rewrite X7. simpl. split; [reflexivity|intros n []].
   - intros pl Hpl. simpl in Hpl. congruence.
   - exists ((EVersion (digits_val ds) :: e) ++ []). unfold parse. simpl run_lines. rewrite E1. cbn [bind].
     rewrite H. cbn [bind]. rewrite E. cbn [bind]. split; [reflexivity|].
